@@ -43,7 +43,7 @@ worker() {
     (cd "$dir/repo" && git apply "$VERIF/$p")
     out=$("$VERIF/bin/scriggosa" -property "$ID" -tier quick -repo "$dir/repo" -verif "$dir/verif" 2>&1)
     code=$?
-    first=$(echo "$out" | grep -a -m1 -E "^  (VIOLATED|UNDECIDED)" | cut -c1-300 | sed 's/\\/\\\\/g; s/"/\\"/g' | tr -d '\t')
+    first=$(echo "$out" | grep -a -m1 -E "^  (VIOLATED|UNDECIDED)" | cut -c1-300 | iconv -c -f utf-8 -t utf-8 | sed 's/\\/\\\\/g; s/"/\\"/g' | tr -d '\t')
     if [ $code -eq 1 ]; then
       printf '{"mutant":"%s","outcome":"detected","first_report":"%s"}\n' "$name" "$first" > "$SCR/res/$safe.json"
     else
